@@ -36,6 +36,10 @@ func main() {
 	case "extract":
 		extract(os.Args[2], os.Args[3])
 	case "corr":
+		// remember the package's own default clock: every script starts from it (an option or constructor that replaces
+		// the clock must show in the script that calls it, not in a later one)
+		restoreOrigClock = snowflake.VerifSetNow(time.Now)
+		restoreOrigClock()
 		for i, a := range os.Args {
 			if (a == "-oracle" || a == "--oracle") && i+1 < len(os.Args) {
 				oraclePath = os.Args[i+1]
@@ -89,6 +93,13 @@ func extract(repo, leanDir string) {
 		}
 		hardLocked = strings.Join(k.Locks, ",") == "n.mu.Lock,defer n.mu.Unlock"
 	}
+	// no other translated function of the package touches a lock (a callee that unlocks and relocks the node mutex would
+	// split the critical section while Generate's own lock list stays the same)
+	for _, k := range sf.Kernels() {
+		if k != nil && k.Key != "HardNode.Generate" && len(k.Locks) > 0 {
+			hardLocked = false
+		}
+	}
 	genBody := node.Body("HardNode", "Generate")
 	hardLocked = hardLocked && strings.HasPrefix(genBody, "{ n.mu.Lock() defer n.mu.Unlock() ") &&
 		node.LockCovered(node.Func("HardNode", "Generate"), "n.mu.Lock()", "n.mu.Unlock()") == "defer"
@@ -133,6 +144,13 @@ func extract(repo, leanDir string) {
 	gBody := nn.Body("UnixNanoID", "GenIDByTS")
 	nanoLocked := strings.HasPrefix(gBody, "{ n.Lock() if ts > n.current {") && strings.HasSuffix(gBody, "} n.Unlock() return ts }") &&
 		strings.Count(gBody, "n.Lock()") == 1 && strings.Count(gBody, "n.Unlock()") == 1
+	if a, e1 := np.Translate("UnixNanoID.GenIDByTS"); e1 == nil {
+		// exactly one Lock first and one Unlock per path in the kernel's own list (the translator copies the tail after the
+		// if/else into both branches, hence two entries) — not `n.Mutex.Unlock(); n.Mutex.Lock()` in between
+		nanoLocked = nanoLocked && strings.Join(a.Locks, ",") == "n.Lock,n.Unlock,n.Unlock"
+	} else {
+		nanoLocked = false
+	}
 	nanoSame := false
 	if a, e1 := np.Translate("UnixNanoID.GenIDByTS"); e1 == nil {
 		if b, e2 := np.Translate("UnixNanoNoLockID.GenIDByTS"); e2 == nil {
@@ -188,13 +206,21 @@ func extract(repo, leanDir string) {
 	if err := gofacts.WriteIfChanged(filepath.Join(leanDir, "Nv/Gen/C06.lean"), b.String()); err != nil {
 		fail(err)
 	}
+	mined := c06wrap.MineConsts(repo, []string{"idgen/snowflake/snowflake.go", "idgen/snowflake/node.go", "idgen/snowflake/mono.go", "idgen/nano/nano.go"},
+		[]uint64{1609430400000, 1000, 1000000})
+	c06wrap.SaveConsts("C06", mined)
 	fmt.Printf("extract C06: nowAcc=%s epochAcc=%s setupAcc=%s stepBits=%s facts=%v,%v,%v,%v,%v,%v,%v,%v,%v,%v untranslatable=%v\n", nowAcc, epochAcc, setupAcc, stepBits,
 		hardLocked, clockUnderLock, newNodeRange, newNodeSeeds, monoLocked, monoRange, monoShape, nanoLocked, nanoSame, genIDForwards, all)
+	if len(mined) > 0 {
+		fmt.Printf("extract C06: integer literals not in the modelled code (boundary scripts are built around them): %v\n", mined)
+	}
 }
 
 // ---------------------------------------------------------------- runner
 
 var oraclePath string
+
+var restoreOrigClock = func() {}
 
 var decRe = regexp.MustCompile(`^-?[0-9]+$`)
 
@@ -469,6 +495,8 @@ func (w *world) run(line string) (out string) {
 	defer func() {
 		if r := recover(); r != nil {
 			out = fmt.Sprintf("panic:%v", r)
+			// a generator call that panics returns no id at all
+			w.hit("generator", "panics", fmt.Sprintf("op `%s` panicked: %v", line, r))
 		}
 	}()
 	f := strings.Fields(line)
@@ -779,7 +807,6 @@ func (w *world) run(line string) (out string) {
 	return "bad-op"
 }
 
-
 // setup: `setup <epochMs> <mode> <lowest>` — configuration through the package's own path. The globals are first put back
 // to the package defaults (hook), then Setup(UseEpoch(t), UseNodeMode(mode), [NodeAtLowest()]) runs for real.
 func (w *world) setup(f []string) string {
@@ -826,6 +853,24 @@ func (w *world) setup(f []string) string {
 	}
 	if gnb != 8 && gnb != 9 && gnb != 10 {
 		w.ready = false // no layout of the package: nothing else is defined
+		return fmt.Sprintf("epoch=%d nb=%d nal=%d", ge, gnb, b)
+	}
+	// the options configure the layout and nothing else: a node made right after Setup, under whatever clock the package
+	// now uses, stamps its ids not earlier than a reading of the host clock taken before the call (millisecond granularity)
+	if n, err := snowflake.NewNode(0, 0); err == nil {
+		for i := 0; i < 40; i++ {
+			before := time.Now().UnixMilli()
+			id := n.Generate()
+			rel := before - ge
+			if rel < 0 || rel+2 >= int64(1)<<w.width() || ge != e {
+				break
+			}
+			if t, nn, _ := fieldsOf(id); t < rel || nn != 0 {
+				w.hit("HardNode.Generate", "timestamp-before-clock", fmt.Sprintf("after Setup(UseEpoch(%d), UseNodeMode(%d), lowest=%s) a fresh node stamped epoch+%d (node %d) while the host clock read epoch+%d before the call", e, mode, f[3], t, nn, rel))
+				break
+			}
+			time.Sleep(time.Millisecond) // spread the 40 calls over different milliseconds of the second
+		}
 	}
 	return fmt.Sprintf("epoch=%d nb=%d nal=%d", ge, gnb, b)
 }
@@ -1337,7 +1382,8 @@ func (w *world) monoOracle(node int64, ids []int64) string {
 	return outs[1]
 }
 
-func runCase(c corr.Case) corr.Result {
+func runOnce(c corr.Case) corr.Result {
+	restoreOrigClock() // the package's own default clock
 	w := &world{}
 	defer w.close()
 	var res corr.Result
@@ -1345,6 +1391,30 @@ func runCase(c corr.Case) corr.Result {
 		res.Outs = append(res.Outs, w.run(l))
 	}
 	res.Hits = w.hits
+	return res
+}
+
+// runCase: a monitor hit is reported as a concrete replay only after the same script, run again on its own from the
+// default state, hits the same key; otherwise the hit is kept but filed as `…:unreproduced` (state leaked from an
+// earlier script, or a rare schedule) so that nobody takes the script for a failing input.
+func runCase(c corr.Case) corr.Result {
+	res := runOnce(c)
+	if len(res.Hits) == 0 {
+		return res
+	}
+	again := runOnce(c)
+	for i, h := range res.Hits {
+		ok := false
+		for _, h2 := range again.Hits {
+			if h2.Key == h.Key {
+				ok = true
+			}
+		}
+		if !ok {
+			res.Hits[i].Key = h.Key + ":unreproduced"
+			res.Hits[i].What = h.What + " [NOT reproduced when this script was run again on its own: the cause may lie in an earlier script or in a rare schedule]"
+		}
+	}
 	return res
 }
 
@@ -1358,9 +1428,33 @@ const (
 
 func i64s(v int64) string { return strconv.FormatInt(v, 10) }
 
+// minedCases: boundary scripts around the integer literals found in the source that the modelled code does not contain
+// (none on the unchanged tree). v is used as a clock offset from the epoch, as a raw timestamp and as a nano ts.
+func minedCases() []corr.Case {
+	var out []corr.Case
+	for _, v := range c06wrap.Patterns(c06wrap.LoadConsts("C06")) {
+		if v < 2 {
+			continue
+		}
+		for _, lay := range [][2]int{{10, 0}, {8, 1}} {
+			if v+3 >= int64(1)<<uint(51-lay[0]) {
+				continue
+			}
+			e := int64(ms2021)
+			out = append(out, corr.Case{Tag: "mined-constant", Lines: []string{
+				fmt.Sprintf("cfg %d %d %d", e, lay[0], lay[1]), "hard 5 0",
+				fmt.Sprintf("g %d 0", e+v-1), fmt.Sprintf("g %d 0", e+v), fmt.Sprintf("g %d 0", e+v), "hard 5 $last", fmt.Sprintf("g %d 0", e+v),
+				fmt.Sprintf("g %d 0", e+v+1), fmt.Sprintf("burst %d 0 3", e+v+1), "state"}})
+		}
+		out = append(out, corr.Case{Tag: "mined-constant", Lines: []string{"cfg 0 10 0", "nano 0", fmt.Sprintf("n %d", v-1), fmt.Sprintf("n %d", v), fmt.Sprintf("n %d", v),
+			fmt.Sprintf("n %d", v+1), "nanonl 0", fmt.Sprintf("n %d", v-1), fmt.Sprintf("n %d", v), fmt.Sprintf("n %d", v+1)}})
+	}
+	return out
+}
+
 func fixedCases() []corr.Case {
 	mk := func(tag string, lines ...string) corr.Case { return corr.Case{Tag: tag, Lines: lines} }
-	return []corr.Case{
+	return append(minedCases(), []corr.Case{
 		// F06: Node256 layout, clock 2270-01-01 is inside the 43-bit width; UnixNano has overflowed
 		mk("witness-F06", "cfg 1609430400000 8 0", "hard 3 0", "g 9467020800000 0"),
 		mk("witness-F06-lowest", "cfg 1609430400000 8 1", "hard 255 0", "g 9467020800000 0", "g 9467020800001 0"),
@@ -1395,11 +1489,13 @@ func fixedCases() []corr.Case {
 		// concurrent callers of the public entry points on the real clock (generator started ahead of the clock: every call
 		// takes the increment branch), and of HardNode / MonoNode Generate under the default clock
 		mk("real-clock-concurrent", "cfg 1609430400000 10 0", "gidpar 4102444800000000000 8 20000", "gidpar 0 8 5000", "hreal 5 8 20000", "mono 7 20000 8", "hreal 1024 2 2"),
+		// NodeAtLowest / UseNodeMode through the real Setup, then the default clock is looked at (millisecond granularity)
+		mk("setup-lowest-clock", "setup 1609430400000 10 1", "hard 3 0", "g 1700000000000 0", "setup 1609430400000 9 0"),
 		mk("genid", "cfg 0 10 0", "gid 0 1 5000", "gid 0 0 5000", "gid 4102444800000000000 1 3000", "gid 1 2 5", "gid 9223372036854775807 1 3"),
 		mk("monocheck", "cfg 1609430400000 10 0", "monocheck 1 4194308096 4194308097 8388612096", "monocheck 1 4194308096 4194308098", "monocheck 1 8388612096 4194308096", "monocheck 1024"),
 		mk("malformed", "cfg 1 10 0", "g 1 0", "cfg 1 7 0", "cfg 1 8 2", "g 1 0", "hard 1", "hard 1 $last", "hard 1_0 0", "hard +1 0", "hard 1 0", "g 1 1000000", "g 1 -1",
 			"burst 1 0 0", "burst 1 0 100001", "par 1 0 65 1", "n 5", "nano 9223372036854775808", "state x", "", "xyzzy 1 2"),
-	}
+	}...)
 }
 
 // clock script: stalls, small steps, steps back, jumps, bursts across the step-counter wrap
